@@ -275,6 +275,14 @@ def check_c15(run):
                 # only where rules run one at a time: two executions writing the caller's stop tag at once would be the
                 # caller's own data race, not gengine's
                 s["rules"] = with_cf(s["rules"], "T")
+            elif x < 0.7:
+                # locals holding objects: the value of a read is told by a METHOD of the object in the local
+                for r in s["rules"]:
+                    names = {o["name"] for o in r["ops"] if o["k"] in ("W", "R")}
+                    for nm in names:
+                        if rng.random() < 0.6:
+                            r["ops"] = [dict(o, k={"W": "WM", "R": "RM"}[o["k"]]) if o["k"] in ("W", "R") and o["name"] == nm else o
+                                        for o in r["ops"]]
             elif rng.random() < 0.3 and not any(c["method"] == "ExecuteDAGModel" for c in s["calls"]):
                 # rules without any assignment statement: their locals are bound by forRange only
                 for r in s["rules"]:
@@ -296,6 +304,23 @@ def check_c15(run):
             rules = with_cf(rules, "T")
         sessions.append({"id": sid, "kind": "locals", "target": rng.choice(["engine", "pool"]), "gated": rng.random() < 0.5, "parallel": False,
                          "rules": rules, "calls": [mkcall(m, extra, rng.random() < 0.5) for _ in range(rng.randint(2, 3))]})
+    # locals bound from an addressable injected scalar (every rule from a field of its own) while the rules of the call
+    # run at the same time on one data context
+    for i in range(120 if quick else 2000):
+        sid += 1
+        rules = []
+        for k, n in enumerate(["r1", "r2", "r3"]):
+            ops = [{"k": "WF", "name": "x"}]
+            for _ in range(rng.randint(1, 3)):
+                ops.append(rng.choice([{"k": "H", "name": ""}, {"k": "R", "name": "x"}, {"k": "WF", "name": rng.choice(["x", "y"])},
+                                       {"k": "R", "name": "x"}]))
+            ops.append({"k": "R", "name": "x"})
+            rules.append({"name": n, "sal": rng.choice([0, 1, 2]), "ops": ops})
+        m, extra = rng.choice([("ExecuteConcurrent", {}), ("ExecuteMixModel", {}), ("ExecuteInverseMixModel", {}),
+                               ("ExecuteNConcurrentMConcurrent", {"n": 1, "m": 2}), ("ExecuteNConcurrentMSort", {"n": 2, "m": 1}),
+                               ("ExecuteSelectedRulesConcurrent", {"names": ["r1", "r2", "r3"]}), ("ExecuteDAGModel", {"dag": [["r1", "r2", "r3"]]})])
+        sessions.append({"id": sid, "kind": "locals", "target": "engine", "gated": rng.random() < 0.8, "parallel": False,
+                         "rules": rules, "calls": [mkcall(m, extra)] * rng.randint(1, 2)})
     # many simultaneous pool requests through the same rules, without gates (real parallelism)
     for i in range(60 if quick else 1200):
         rec = rng.choice(recsL)
